@@ -397,6 +397,11 @@ Definition dense_array (v : val) : option (list val) :=
   | _ => None
   end.
 
+(* a conditional-accessor item `?x:d`: with one present, what happens to components the pattern does not name
+   is documented one way (ignored, docs/docs/lang/binding.md) and implemented another for tuples (rejected):
+   outside the statement *)
+Definition is_fallback (it : pitem) : bool := match it with PItem _ (Some _) => true | _ => false end.
+
 Definition count_extras (items : list pitem) : nat :=
   length (filter (fun it => match it with PExtra _ => true | PItem _ (Some _) => true | _ => false end) items).
 
@@ -604,9 +609,10 @@ Definition bindF (ev : env -> expr -> res value) (bind : env -> pat -> value -> 
         | Some xs =>
             if (1 <? count_extras items)%nat then Err else
             (* items before the extra take from the front, items after it from the back *)
+            let has_fb := existsb is_fallback items in
             (fix go (items : list pitem) (xs : list val) (acc : env) : res env :=
                match items with
-               | [] => match xs with [] => Ok acc | _ => Err end
+               | [] => match xs with [] => Ok acc | _ => if has_fb then Unspec else Err end
                | PExtra o :: rest =>
                    let nrest := length rest in
                    if (length xs <? nrest)%nat then Err else
@@ -633,6 +639,7 @@ Definition bindF (ev : env -> expr -> res value) (bind : env -> pat -> value -> 
         match d with
         | VTup tv =>
             if (1 <? length (filter (fun a => match snd a with PExtra _ => true | _ => false end) attrs))%nat then Err else
+            let has_fb := existsb (fun a => is_fallback (snd a)) attrs in
             (fix go (attrs : list (name * pitem)) (remaining : list (name * val)) (extra : option (option name)) (acc : env) : res env :=
                match attrs with
                | [] =>
@@ -641,7 +648,7 @@ Definition bindF (ev : env -> expr -> res value) (bind : env -> pat -> value -> 
                                | Some x => bind_item acc (PVar x) (D (VTup remaining))
                                | None => Ok acc
                                end
-                   | None => match remaining with [] => Ok acc | _ => Err end
+                   | None => match remaining with [] => Ok acc | _ => if has_fb then Unspec else Err end
                    end
                | (_, PExtra o) :: rest => go rest remaining (Some o) acc
                | (n, PItem q fb) :: rest =>
@@ -663,6 +670,7 @@ Definition bindF (ev : env -> expr -> res value) (bind : env -> pat -> value -> 
             | None => Err
             | Some es =>
               if (1 <? length (filter (fun a => match snd a with PExtra _ => true | _ => false end) entries))%nat then Err else
+              let has_fb := existsb (fun a => is_fallback (snd a)) entries in
               (fix go (entries : list (expr * pitem)) (remaining : list (val * val)) (extra : option (option name)) (acc : env) : res env :=
                  match entries with
                  | [] =>
@@ -671,7 +679,7 @@ Definition bindF (ev : env -> expr -> res value) (bind : env -> pat -> value -> 
                                  | Some x => bind_item acc (PVar x) (D (mkset (map (fun p => ventry (fst p) (snd p)) remaining)))
                                  | None => Ok acc
                                  end
-                     | None => match remaining with [] => Ok acc | _ => Err end
+                     | None => match remaining with [] => Ok acc | _ => if has_fb then Unspec else Err end
                      end
                  | (_, PExtra o) :: rest => go rest remaining (Some o) acc
                  | (ke, PItem q fb) :: rest =>
